@@ -88,9 +88,24 @@ class Worker:
         self.kill()
 
 
-def run_cases(check_id, tier, cases, timeout, nworkers=16, deadline_s=None, env_extra=None, progress=False):
-    """run cases over a pool of workers; returns list of (case, result) in case order"""
+def load_factor():
+    """>= 1: how much slower than on an idle machine cases are expected to run, from the 1-minute load average measured before
+    our own workers start (per-case watchdogs and the run deadline are wall-clock; on a machine shared with other jobs they are
+    stretched accordingly, so that the same cases are decided).  Capped at 3."""
+    try:
+        import os
+        load1 = os.getloadavg()[0]
+        ncpu = os.cpu_count() or 1
+        return round(min(3.0, max(1.0, 1.0 + (load1 - 0.25 * ncpu) / ncpu)), 2)
+    except Exception:
+        return 1.0
+
+
+def run_cases(check_id, tier, cases, timeout, nworkers=16, deadline_s=None, env_extra=None, progress=False, min_deciding=0, timeout_scale=1.0):
+    """run cases over a pool of workers; returns list of (case, result) in case order.  After deadline_s no new case is
+    started - unless fewer than min_deciding cases have been decided so far, then up to 3 * deadline_s."""
     q = queue.Queue()
+    decided = [0]
     for i, c in enumerate(cases):
         q.put((i, c))
     results = [None] * len(cases)
@@ -106,14 +121,17 @@ def run_cases(check_id, tier, cases, timeout, nworkers=16, deadline_s=None, env_
                     i, c = q.get_nowait()
                 except queue.Empty:
                     return
-                if deadline_s is not None and time.time() - t0 > deadline_s:
+                if deadline_s is not None and time.time() - t0 > deadline_s and \
+                        (decided[0] >= min_deciding or time.time() - t0 > 3 * deadline_s):
                     results[i] = {"verdict": "inconclusive", "reason": "skipped-deadline"}
                     continue
-                to = c.get("timeout", timeout)
+                to = c["timeout"] * timeout_scale if "timeout" in c else timeout
                 res = w.run(c, to)
                 results[i] = res
                 with lock:
                     done[0] += 1
+                    if res.get("verdict") in ("held", "violated"):
+                        decided[0] += 1
                     if progress and done[0] % 25 == 0:
                         print(f"  .. {done[0]}/{len(cases)} cases, {time.time()-t0:.0f}s", file=sys.stderr, flush=True)
         finally:
